@@ -376,8 +376,9 @@ func lenEq(l *an.Leaf, atom string) string {
 	return v
 }
 
-func r053(c *an.Ctx) {
-	const rule = "R05.3"
+func r053(c *an.Ctx) { r053as(c, "R05.3") }
+
+func r053as(c *an.Ctx, rule string) {
 	fn := mustFunc(c, rule, resPkg, "WriteRequest", "fieldUpdater")
 	if fn == nil {
 		return
@@ -523,6 +524,10 @@ func r054as(c *an.Ctx, rule string) {
 		idx := map[string]int{}
 		var resetDst, pruneWritableDst, resetMaskPrune, filterWritableSrc, filterMaskSrc, merge, pruneE = -1, -1, -1, -1, -1, -1, -1
 		anyDstWrite := false
+		// the written message as Merge works on it: src itself, or the copy it makes before filtering
+		isSrc := func(t string) bool {
+			return t == "src" || (strings.HasPrefix(t, "call ") && strings.HasSuffix(t, "proto.Clone(src)"))
+		}
 		for i, r := range l.Recs {
 			if writesDst(r) {
 				anyDstWrite = true
@@ -540,7 +545,7 @@ func r054as(c *an.Ctx, rule string) {
 				if !strings.Contains(r.Args[1].S, "f.resetMask") {
 					rec("reset uses the reset mask", false, "dst is pruned after the merge with "+r.Args[1].S)
 				}
-			case strings.HasSuffix(r.Callee, "NestedMask).Filter") && len(r.Args) == 2 && r.Args[1].S == "src":
+			case strings.HasSuffix(r.Callee, "NestedMask).Filter") && len(r.Args) == 2 && isSrc(r.Args[1].S):
 				if strings.Contains(r.Args[0].S, "f.updateMask") {
 					filterMaskSrc = i
 				} else {
@@ -548,7 +553,7 @@ func r054as(c *an.Ctx, rule string) {
 				}
 			case strings.HasSuffix(r.Callee, "proto.Merge"):
 				merge = i
-				rec("merge copies src into dst", len(r.Args) == 2 && r.Args[0].S == "dst" && r.Args[1].S == "src", "proto.Merge is called with ("+r.Args[0].S+", "+r.Args[1].S+")")
+				rec("merge copies src into dst", len(r.Args) == 2 && r.Args[0].S == "dst" && isSrc(r.Args[1].S), "proto.Merge is called with ("+r.Args[0].S+", "+r.Args[1].S+")")
 			case strings.HasSuffix(r.Callee, "pkg/masks.pruneEmpty"):
 				pruneE = i
 			}
